@@ -85,6 +85,10 @@ impl Ctx {
             .or_insert(0) += 1;
     }
     pub fn fail(&mut self, property: &str, clause: &str, case: &str, detail: String, input: serde_json::Value) {
+        // keep the (possibly large) input only for the first few findings of each clause
+        let n = self.findings.iter().filter(|f| f.property == property && f.clause == clause).count();
+        let input = if n < 3 { input } else { serde_json::Value::Null };
+        if n >= 200 { return; }
         self.findings.push(Finding {
             property: property.into(),
             clause: clause.into(),
